@@ -9,6 +9,7 @@ import MoreExec.Model.Retry
 import MoreExec.Model.Poll
 import MoreExec.Model.CancelOnShutdown
 import MoreExec.Model.Shutdown
+import MoreExec.Model.MeFuture
 
 namespace Driver.Replay
 
@@ -207,5 +208,37 @@ def run (hdr : List String) (lines : Array String) : String :=
   let hw := match hdr with | _ :: _ :: _ :: c :: _ => c = "1" | _ => true
   runActs step parseAct describe (init hw) lines
 end Shutdown
+
+namespace MeFuture
+open MoreExec.MeFuture
+
+def parseAct : List String → Option Act
+  | ["addStore", t, c] => some (.addStore (nat! t) (nat! c))
+  | ["addDirect", t, c] => some (.addDirect (nat! t) (nat! c))
+  | ["callDirect", t, c] => some (.callDirect (nat! t) (nat! c))
+  | ["finish", t] => some (.finish (nat! t))
+  | ["cancelOk", t] => some (.cancelOk (nat! t))
+  | ["cancelNoop", t] => some (.cancelNoop (nat! t))
+  | ["cancelVeto", t] => some (.cancelVeto (nat! t))
+  | ["setLate", t] => some (.setLate (nat! t))
+  | ["invokeNext", t] => some (.invokeNext (nat! t))
+  | ["invokeEnd", t] => some (.invokeEnd (nat! t))
+  | _ => none
+
+def describe (s : St) : String :=
+  s!"st={repr s.st} stored={s.stored} owed={s.owed} direct={s.direct} registered={s.registered} invoked={s.invoked}"
+
+/-- `invokeNext t c`: the harness names the callback it saw run; the model must owe exactly that one next -/
+def stepLine (s : St) (ws : List String) : Option St :=
+  match ws with
+  | ["invokeNext", t, c] =>
+      match s.owed with
+      | some (_, c' :: _) => if c' = nat! c then step s (.invokeNext (nat! t)) else none
+      | _ => none
+  | _ => (parseAct ws).bind (step s)
+
+def run (lines : Array String) : String :=
+  runActs (fun s ws => stepLine s ws) (fun ws => some ws) describe init lines
+end MeFuture
 
 end Driver.Replay
